@@ -1438,6 +1438,14 @@ closerLoop:
 
 			// Remove any delimiters between the opener and closer from the delimiter stack.
 			state.stack = deleteDelimiterStack(state.stack, openerIndex+1, currentPosition)
+			// The openers_bottom entries are stack indices:
+			// keep them pointing at the same elements.
+			// (None can be above the closer.)
+			for i, bottom := range openersBottom {
+				if bottom > openerIndex+1 {
+					openersBottom[i] = openerIndex + 1
+				}
+			}
 			currentPosition = openerIndex + 1
 
 			// If either the opening or the closing text nodes became empty,
@@ -1445,6 +1453,11 @@ closerLoop:
 			if opener.Span().Len() == 0 {
 				state.remove(opener)
 				state.stack = deleteDelimiterStack(state.stack, openerIndex, openerIndex+1)
+				for i, bottom := range openersBottom {
+					if bottom > openerIndex {
+						openersBottom[i] = bottom - 1
+					}
+				}
 				currentPosition--
 			}
 			if closer.Span().Len() == 0 {
@@ -1900,22 +1913,29 @@ type delimiterStackElement struct {
 	node  *Inline
 }
 
-const openersBottomCount = 9
+const openersBottomCount = 14
 
+// openersBottomIndex returns the index into the openers_bottom table
+// for a closing delimiter.
+// Emphasis delimiters are indexed by delimiter character,
+// the length of the closing delimiter run modulo 3,
+// and whether the closing delimiter can also be an opener,
+// because the "rule of 3" makes the set of acceptable openers depend on all three.
 func (elem delimiterStackElement) openersBottomIndex() int {
 	switch elem.typ {
-	case inlineDelimiterStar:
-		if elem.flags&openerFlag == 0 {
-			return elem.n % 3
-		} else {
-			return 3 + elem.n%3
+	case inlineDelimiterStar, inlineDelimiterUnderscore:
+		i := elem.n % 3
+		if elem.flags&openerFlag != 0 {
+			i += 3
 		}
-	case inlineDelimiterUnderscore:
-		return 6
+		if elem.typ == inlineDelimiterUnderscore {
+			i += 6
+		}
+		return i
 	case inlineDelimiterLink:
-		return 7
+		return 12
 	case inlineDelimiterImage:
-		return 8
+		return 13
 	default:
 		panic("unreachable")
 	}
